@@ -309,6 +309,11 @@ where
     par_cases(&c, monitor, total, || (), |_, r, ctx, i| f(r, ctx, i))
 }
 
+/// Reduced workload sizes for interpreters that are orders of magnitude slower (Miri).
+pub fn small() -> bool {
+    cfg!(miri) || std::env::var("VERIF_SMALL").is_ok()
+}
+
 pub fn short(v: &[u8]) -> String {
     if v.len() <= 24 {
         hex(v)
